@@ -18,8 +18,10 @@ from sa import core, selftest
 ap = argparse.ArgumentParser()
 ap.add_argument("id")
 ap.add_argument("--src")
+ap.add_argument("--kind", default="benign", choices=["benign", "seeded"],
+                help="seeded: the patch is a seeded defect; only report which properties fire (no meta.json)")
 args = ap.parse_args()
-dst = os.path.join(HERE, "benign", args.id)
+dst = os.path.join(HERE, args.kind, args.id)
 os.makedirs(dst, exist_ok=True)
 if args.src:
   for f in os.listdir(args.src):
@@ -29,7 +31,7 @@ for f in sorted(os.listdir(os.path.join(HERE, "rules"))):
   if f.startswith("c") and f.endswith(".py"):
     importlib.import_module("rules." + f[:-3])
 ctx0 = core.Ctx()
-ov = selftest._apply_patch(ctx0, os.path.join("benign", args.id, "patch.diff"))
+ov = selftest._apply_patch(ctx0, os.path.join(args.kind, args.id, "patch.diff"))
 meta = {"id": args.id, "applies": ov is not None, "false_alarms": {}, "refusals": {}}
 if ov is None:
   print(args.id, "patch does not apply to the current tree")
@@ -52,4 +54,7 @@ else:
   for p, v in meta["refusals"].items():
     for x in v[:2]:
       print("   REFUSAL", p, x[:230])
-json.dump(meta, open(os.path.join(dst, "meta.json"), "w"), indent=1)
+if args.kind == "benign":
+  json.dump(meta, open(os.path.join(dst, "meta.json"), "w"), indent=1)
+else:
+  print("SEEDED", args.id, "fires:", sorted(meta["false_alarms"]), "errors:", sorted(meta["refusals"]))
